@@ -46,9 +46,10 @@ class C07(EvalFamProp):
             return None
         if io['cfg'].get('err') == 'HANG':
             return 'build did not terminate'
-        unsafe_vals = set(json.dumps(n['v']) for n in nodes if n['kind'] == 'scalar' and not n['safe'] and isinstance(n['v'], int) and not isinstance(n['v'], bool) and n['v'] >= 6000)
-        safe_vals = set(json.dumps(n['v']) for n in nodes if n['kind'] == 'scalar' and n['safe'])
-        unsafe_only = unsafe_vals - safe_vals
+        # unsafety is derived from the DOCUMENTS, not from the flags of the merged tree (which are what is under test)
+        uns, saf = doc_scalar_contexts(case['docs'])
+        unsafe_only = set(v for v in (uns - saf) if re.fullmatch(r'[0-9]{4,}', v))
+        stages = doc_safety(case['docs'])
         by_path = {n['p']: n for n in nodes}
         for what, path, safe, args in io.get('exec', []):
             if safe is False:
@@ -56,6 +57,9 @@ class C07(EvalFamProp):
             n = by_path.get(path)
             if n is not None and not n['safe']:
                 return f'{what} executed on behalf of the node at {path!r}, which is unsafe in the merged tree'
+            writers = [m[path] for m in stages if path in m]
+            if writers and writers[-1]:
+                return f'{what} executed on behalf of the node at {path!r} whose latest writer is unsafe content (source added with safe=False or below !unsafe)'
             for v in unsafe_only:
                 if re.search(r'(?<![0-9])' + re.escape(v) + r'(?![0-9])', args):
                     return f'value {v} originating from unsafe content reached the code executed for {path!r} ({what})'
